@@ -115,11 +115,11 @@ Print Assumptions sensitivity_of_input.
 
 (* ---- props.influence / avg_sensitivity / sensitize, relative to exact model counting / a sound+complete solver and the
         specification of the sensitization circuit (sens_spec; provided by sens_spec_from_shape) ---- *)
-Theorem sens_spec_from_shape : ∀ c SC x (E : gset string) sp T,
+Theorem sens_spec_from_shape : ∀ c SC x (E : gset string) T,
   closed c → acyclic c → inputs_only c → sub_of SC c → x ∈ dom SC → E ⊆ dom SC →
   sens_shape SC x E T → closed T → acyclic T →
-  free_nodes T = list_to_set sp → startpoints T = list_to_set sp → inputs SC = list_to_set sp →
-  sens_spec c x (elements E) sp T.
+  free_nodes T = startpoints T → startpoints T = inputs SC →
+  sens_spec c x (elements E) (elements (startpoints T)) T.
 Proof. exact sens_spec_of_shape. Qed.
 Print Assumptions sens_spec_from_shape.
 (* why influence may use the sensitization circuit of (startpoint s, endpoint n) *)
@@ -176,6 +176,11 @@ Print Assumptions certificate.
 
 Ltac by_bool := match goal with |- ?P => apply (bool_decide_eq_true_1 P); vm_compute; reflexivity end.
 
+(* ... and brute-force counting is an exact model counter: mc_exact is satisfiable *)
+Theorem counter_exists : mc_exact bf_count.
+Proof. exact bf_count_exact. Qed.
+Print Assumptions counter_exists.
+
 (* ---- non-vacuity: concrete circuits satisfy the hypotheses; the transform models produce the shapes ---- *)
 Definition ex_c : Circuit :=
   {| c_name := "t"; c_bbs := ∅;
@@ -203,6 +208,22 @@ Qed.
 (* both sides of the equivalence are inhabited: a = b = 1 sensitizes g to o, and sat can be 0 *)
 Example ex_sensitizing : sens_at (c_g ex_c) "g" ["o"] (λ _, true).
 Proof. exists "o". split; [by left|]. vm_compute. discriminate. Qed.
+
+(* the hypotheses of influence_spec / sensitize_spec hold for this circuit: sens_spec from the shape and the certificate *)
+Example ex_sens_spec : sens_spec (c_g ex_c) "g" ["o"] (elements (startpoints ex_T)) ex_T.
+Proof.
+  destruct ex_wf as (Hcl & Hac & Hio).
+  assert (Hsub : sub_of (c_g ex_c) (c_g ex_c)) by (apply sub_ofb_sound; vm_compute; reflexivity).
+  assert (Hn : "g" ∈ dom (c_g ex_c)) by (apply elem_of_dom; eexists; vm_compute; reflexivity).
+  assert (HE : ({[ "o" ]} : gset string) ⊆ dom (c_g ex_c)).
+  { intros e ->%elem_of_singleton. apply elem_of_dom; eexists; vm_compute; reflexivity. }
+  rewrite <- (elements_singleton (C:=gset string) "o").
+  apply (sens_spec_from_shape (c_g ex_c) (c_g ex_c) "g" {[ "o" ]} ex_T Hcl Hac Hio Hsub Hn HE ex_shape).
+  - apply closedb_spec; vm_compute; reflexivity.
+  - apply acyclicb_sound; vm_compute; reflexivity.
+  - by_bool.
+  - by_bool.
+Qed.
 
 (* the sensitivity circuit of g = not a, with popcount(1) = (in_0 -> out_0) *)
 Definition ex_c2 : Circuit :=
